@@ -7,7 +7,7 @@
 
 use cadence::{BufferedSpyMetricSink, MetricSink, QueuingMetricSink};
 use std::io;
-use std::sync::atomic::{AtomicBool, AtomicUsize, Ordering};
+use std::sync::atomic::{AtomicBool, AtomicU64, AtomicUsize, Ordering};
 use std::sync::Arc;
 use std::time::Duration;
 
@@ -233,8 +233,41 @@ fn stall_with_backlog(cap: Option<usize>) -> usize {
     accepted.len()
 }
 
+/// An outage that lasts: the wrapped sink fails every metric for hours (one failure every few virtual minutes, then one
+/// after an idle hour). Every failure is reported to the handler, the last like the first (C16) - how long the sink has
+/// been failing is no reason to stop telling.
+fn long_outage() -> usize {
+    struct Failing;
+    impl MetricSink for Failing {
+        fn emit(&self, m: &str) -> std::io::Result<usize> {
+            Err(std::io::Error::new(std::io::ErrorKind::ConnectionRefused, m.to_string()))
+        }
+    }
+    let calls = Arc::new(AtomicU64::new(0));
+    let c2 = calls.clone();
+    let q = QueuingMetricSink::builder()
+        .with_error_handler(move |_e| {
+            c2.fetch_add(1, Ordering::SeqCst);
+        })
+        .build(Failing);
+    let mut sent = 0u64;
+    for i in 0..6u64 {
+        q.emit(&format!("outage.n{}:1|c", i)).unwrap();
+        sent += 1;
+        wait_for("hand-over", "C08", || q.drained() >= sent);
+        std::thread::sleep(if i == 4 { PAUSE } else { Duration::from_secs(240) });
+        let got = calls.load(Ordering::SeqCst);
+        if got != sent {
+            fail("C16", format!("the wrapped sink has failed {} metrics over {} virtual minutes without a success in between; the handler was called {} times", sent, (i + 1) * 4, got));
+        }
+    }
+    drop(q);
+    sent as usize
+}
+
 fn main() {
     let mut metrics = 0;
+    metrics += long_outage();
     metrics += stall_with_backlog(None);
     metrics += stall_with_backlog(Some(8));
     metrics += direct_pauses();
@@ -242,5 +275,5 @@ fn main() {
     metrics += queued_pauses(Some(8));
     metrics += slow_backlog(None, 7);
     metrics += slow_backlog(Some(4), 7);
-    println!("miri_time ok scenarios=7 metrics={} virtual_pause_s={}", metrics, PAUSE.as_secs());
+    println!("miri_time ok scenarios=8 metrics={} virtual_pause_s={}", metrics, PAUSE.as_secs());
 }
